@@ -116,6 +116,12 @@ def _run_task(args):
         return ("err", traceback.format_exc(), repr(task)[:400])
 
 
+def _quiet_worker():
+    # library code prints (e.g. MOASHA.on_trial_add): keep the check's stdout for verdict lines only
+    import sys
+    sys.stdout = open(os.devnull, "w")
+
+
 def pmap(fn, tasks, procs=None):
     """Run fn(task) for each task on a fork pool; returns list of results (ordered).
 
@@ -128,7 +134,7 @@ def pmap(fn, tasks, procs=None):
         out = [_run_task((fn, t)) for t in tasks]
     else:
         ctx = mp.get_context("fork")
-        with ctx.Pool(min(procs, len(tasks))) as pool:
+        with ctx.Pool(min(procs, len(tasks)), initializer=_quiet_worker) as pool:
             out = pool.map(_run_task, [(fn, t) for t in tasks], chunksize=1)
     res = []
     for o in out:
